@@ -52,8 +52,14 @@ def writeRow (m : Memory α) (data step : Int) (N : Nat) (buf : Nat → α) : Me
     buf ((a - data) / step).toNat
   else m a
 
-/-- the element offset of `high = data + step*N1/2` (`ihaar`, `iwavelet`): C's truncating division of the product -/
-def highOff (step : Int) (N : Nat) : Int := (step * (N : Int)).tdiv 2
+/-- the element offset of `high` as the PINNED tree computed it, `high = data + step*N1/2`: C's truncating division of
+    the product `(step·N1)/2` (wrong for an odd `N1` reached with `|step| ≥ 2`; repaired in /repo by
+    "fix: ihaar/iwavelet computed the start of the high-pass half as (step*N1)/2 instead of step*(N1/2)").
+    Kept for the history theorems `C17_high_pointer_pinned`, `C17_high_reads_in_row_pinned`. -/
+def highOffPinned (step : Int) (N : Nat) : Int := (step * (N : Int)).tdiv 2
+
+/-- the element offset of `high = data + step*(N1/2)` (`ihaar`, `iwavelet`, as repaired): sample `N1/2` of the row -/
+def highOff (step : Int) (N : Nat) : Int := step * ((N / 2 : Nat) : Int)
 
 /-- one row of `ihaar<T>` with the two half rows read separately: `l = low[x·step]`, `h = high[x·step]` -/
 def ihaarRowG (N : Nat) (lo hi : Nat → α) (k : Nat) : α :=
